@@ -126,6 +126,7 @@ func TestC01(t *testing.T) {
 	vlib.EnableFaultLog()
 	h.Require("accepted", "rejected", "include-depth>=1", "macro-cycle")
 
+	runRegression(h, c01Regression)
 	vlib.Enum(h, "hostile-constants", false, func(yield func(string) bool) {
 		for i, s := range vlib.HostileConstants {
 			if h.Mine(i) && !yield(s) {
